@@ -57,6 +57,7 @@ inline void allocator_reset() {
 #include "nmtools/utl/array.hpp"
 #include "nmtools/utl/maybe.hpp"
 #include "nmtools/utl/either.hpp"
+#include "nmtools/utility/small_vector.hpp"
 #include "proto.hpp"
 
 namespace utl = nmtools::utl;
@@ -130,7 +131,9 @@ template <typename K> static std::string run_history(const std::vector<op_t>& op
     alignas(16) static unsigned char store[NSLOTS][sizeof(C)];
     bool live[NSLOTS] = {false, false};
     auto obj = [&](int k) -> C& { return *std::launder(reinterpret_cast<C*>(store[k])); };
-    auto fresh = [&](int k) -> void* { memset(store[k], K::storage_fill, sizeof(C)); return store[k]; };
+    // object storage handed to the constructors is filled with a known byte; the barrier (and -fno-lifetime-dse,
+    // see harness_specs) keeps the compiler from dropping the fill as a dead store before the constructor
+    auto fresh = [&](int k) -> void* { memset(store[k], K::storage_fill, sizeof(C)); void* p = store[k]; asm volatile("" : "+r"(p) : : "memory"); return p; };
     std::string S, I;
     auto show = [&](int k) -> std::string {
         if (!live[k]) return "-";
@@ -282,6 +285,50 @@ template <typename E> struct arr_kind {
     static std::string intern(const C&) { return std::to_string(ARR_N) + ":"; }
 };
 
+// ---------------------------------------------------------------------------------------------
+// nmtools::small_vector<E,4> over the STL-free parts: utl::either<utl::static_vector<E,4>, utl::vector<E>>
+// ---------------------------------------------------------------------------------------------
+static const size_t SMALL_DIM = 4;
+template <typename E> struct small_peek : nmtools::small_vector<E, SMALL_DIM, utl::either, utl::static_vector, utl::vector> {
+    using base = nmtools::small_vector<E, SMALL_DIM, utl::either, utl::static_vector, utl::vector>;
+    using base::base;
+    small_peek() : base() {}
+    small_peek(const small_peek& o) : base(static_cast<const base&>(o)) {}
+    small_peek& operator=(const small_peek& o) { base::operator=(static_cast<const base&>(o)); return *this; }
+    const typename base::static_vector_type* st() const { return nmtools::get_if<typename base::static_vector_type>(&this->buffer_); }
+    const typename base::vector_type* dy() const { return nmtools::get_if<typename base::vector_type>(&this->buffer_); }
+};
+template <typename E> struct small_kind {
+    using T = E; using C = small_peek<E>;
+    static const int storage_fill = 0; static const bool unguarded = false;
+    static void ctor(void* p) { new (p) C(); }
+    static void ctorN(void* p, size_t n) { new (p) C(n); }
+    static void ctorV(void* p, const std::vector<T>& v) {
+        switch (v.size()) {
+            case 2: new (p) C(v[0], v[1]); break;
+            case 3: new (p) C(v[0], v[1], v[2]); break;
+            case 4: new (p) C(v[0], v[1], v[2], v[3]); break;
+            case 5: new (p) C(v[0], v[1], v[2], v[3], v[4]); break;
+            case 6: new (p) C(v[0], v[1], v[2], v[3], v[4], v[5]); break;
+            default: throw bad_args("ctorV arity");
+        }
+    }
+    static void push(C& c, const T& v) { c.push_back(v); }
+    static void pushAt(C&, size_t) {}
+    static void resize(C& c, size_t n) { c.resize(n); }
+    static size_t size(const C& c) { return (size_t)c.size(); }
+    static size_t cap(const C& c) { return c.st() ? SMALL_DIM : reinterpret_cast<const vec_peek<E>*>(c.dy())->cap(); }
+    static size_t limit(const C& c) { return cap(c); }
+    static const T& get(const C& c, size_t i) { return c.at(i); }
+    static void set(C& c, size_t i, const T& v) { c[i] = v; }
+    static std::string intern(const C& c) {
+        std::string s = (c.st() ? "S" : "D") + std::to_string(cap(c)) + ":";
+        const T* d = c.data();
+        for (size_t i = c.size(), k = 0; i < cap(c); i++, k++) { if (k) s += ","; s += cell<T>(d[i]); }
+        return s;
+    }
+};
+
 template <template <typename> class K> static std::string by_elem(const std::string& e, const std::vector<op_t>& ops) {
     if (e == "int") return run_history<K<int>>(ops);
     if (e == "double") return run_history<K<double>>(ops);
@@ -327,7 +374,7 @@ template <typename K> static std::string run_ehistory(const std::vector<op_t>& o
     alignas(16) static unsigned char store[NSLOTS][sizeof(C)];
     bool live[NSLOTS] = {false, false};
     auto obj = [&](int k) -> C& { return *std::launder(reinterpret_cast<C*>(store[k])); };
-    auto fresh = [&](int k) -> void* { memset(store[k], 0, sizeof(C)); return store[k]; };
+    auto fresh = [&](int k) -> void* { memset(store[k], 0, sizeof(C)); void* p = store[k]; asm volatile("" : "+r"(p) : : "memory"); return p; };
     auto drop = [&](int k) { obj(k).~C(); trk::sweep(store[k], sizeof(C)); live[k] = false; };
     std::string S, I;
     for (size_t t = 0; t < ops.size(); t++) {
@@ -378,5 +425,6 @@ std::string handle(const std::string& op, const Args& a) {
     if (kind == "vec") return by_elem<vec_kind>(e, ops);
     if (kind == "svec") return by_elem<svec_kind>(e, ops);
     if (kind == "arr") return by_elem<arr_kind>(e, ops);
+    if (kind == "small") return by_elem<small_kind>(e, ops);
     return "unknown-op";
 }
